@@ -149,6 +149,8 @@ pub struct Hinted<I> {
     /// pairs yielded up to the first None, so poison in the result is a defect.
     pub done: bool,
     pub poison: u32,
+    /// how many of the remaining pairs will make the receiver grow (never more than `remaining`)
+    pub fresh: usize,
 }
 pub const POISON_ID: u32 = 3_500_000;
 pub const HUGE_UPPER: [usize; 4] = [1usize << 62, isize::MAX as usize, usize::MAX - 1, usize::MAX];
@@ -182,16 +184,26 @@ impl<I: Iterator<Item = (Key, Prio)>> Iterator for Hinted<I> {
             Hint::Loose(lo, slack) => (k.saturating_sub(lo as usize), Some(k + slack as usize)),
             Hint::UpperPow(e) => (0, Some(k + (1usize << (e.clamp(10, 16))))),
             Hint::UpperHuge(i) => (0, Some(HUGE_UPPER[(i % 4) as usize])),
+            Hint::LowerShort(d) => (k.saturating_sub(d as usize), None),
+            Hint::Half => (k / 2, Some(2 * k + 1)),
+            Hint::FreshLower => (self.fresh.min(k), None),
+            Hint::FreshBounds => (self.fresh.min(k), Some(k)),
         }
     }
 }
+/// for an empty receiver: every distinct item of the batch is fresh
 pub fn hinted(pairs: &[(u32, u32, i64)], hint: Hint) -> Hinted<impl Iterator<Item = (Key, Prio)> + '_> {
+    let distinct: std::collections::BTreeSet<u32> = pairs.iter().map(|p| p.0).collect();
+    hinted_fresh(pairs, hint, distinct.len())
+}
+pub fn hinted_fresh(pairs: &[(u32, u32, i64)], hint: Hint, fresh: usize) -> Hinted<impl Iterator<Item = (Key, Prio)> + '_> {
     Hinted {
         inner: pairs.iter().map(|&(id, tag, p)| (Key::new(id, tag), Prio::new(p))),
         remaining: pairs.len(),
         hint,
         done: false,
         poison: 0,
+        fresh: fresh.min(pairs.len()),
     }
 }
 
